@@ -7,6 +7,7 @@
 -/
 import ClairModel.Proofs.Feeds
 import ClairModel.Proofs.FeedVex
+import ClairModel.Proofs.FeedOvalScope
 import ClairModel.Gen.Severity
 import ClairModel.Gen.Feeds
 
@@ -286,6 +287,66 @@ theorem oval_module_flattening_counterexample :
                          bugs := [], cveHrefs := [], platforms := [], cpes := [], criteria := crit }
     ((rpmDefSpec root (protoSingle (fun _ => 0) "u" "d") d).map fun v => (v.pkgName, v.pkgModule)) =
       [("nodejs", "nodejs:12"), ("nodejs", "nodejs:14"), ("npm", "nodejs:12"), ("npm", "nodejs:14")] := by
+  decide
+
+/-! ### OVAL read with the criteria operators -/
+
+/-- AND/OR-aware reading.  `inScope [] t` pairs every criterion of the tree `t`
+    (operators included) with the module streams in whose scope it stands: a
+    "Module m is enabled" criterion of an AND node scopes over everything below
+    that node.  If the definition is uniformly scoped — every criterion stands
+    in the scope of all module criterions of the definition — the flat reading
+    of `RPMDefsToVulns` is exactly the scoped one: prototypes × package
+    criterions × the modules in scope ("" when there is none).
+    (`_partial`: exactly this hypothesis; see the two counterexamples.) -/
+theorem oval_scoped_exact_partial (root : OvalRoot) (proto : ProtoFn) (d : OvalDef) (t : STree)
+    (hd : d.criteria = t.erase) (hu : UniformScope t) :
+    rpmDefSpec root proto d = rpmDefScoped root proto d t :=
+  rpmDefSpec_eq_scoped root proto d t hd hu
+
+/-- The two shapes the vendors publish are uniformly scoped, whatever the
+    nesting below: a definition without module criterions, and a definition
+    whose root is an AND node holding every module criterion itself
+    (AND[Module m, …, OR[packages …]]). -/
+theorem oval_uniform_scope_shapes :
+    (∀ t : STree, enabledModules (walk t.erase) = [] → UniformScope t) ∧
+    (∀ (subs : List STree) (leaves : List Criterion), enabledModules (walkList (eraseList subs)) = [] →
+      UniformScope (.node "AND" subs leaves)) :=
+  ⟨uniform_of_noModules, uniform_of_rootAnd⟩
+
+/-- The flat reading never loses a module that is in scope: every module a
+    criterion stands in the scope of is among the definition's enabled modules,
+    so each stated (package, module ≠ "") pair is returned. -/
+theorem oval_scope_modules_never_lost (t : STree) (x : Criterion × List String) (hx : x ∈ inScope [] t)
+    (m : String) (hm : m ∈ x.2) : m ∈ modulesOf (walk t.erase) := by
+  have := inScope_ctx_sub [] t x hx m hm
+  simp only [List.not_mem_nil, false_or] at this
+  unfold modulesOf
+  split
+  · rename_i he
+    rw [List.isEmpty_iff.1 he] at this
+    cases this
+  · exact this
+
+/-- A package outside every module's scope next to a modular one:
+    `OR[AND[Module nodejs:12, nodejs], npm]` states (nodejs, nodejs:12) and
+    (npm, no module); the walker returns (npm, nodejs:12) instead — the
+    non-modular npm is not reported at all.  Finding `oval-module-flattening`. -/
+theorem oval_unscoped_package_counterexample :
+    let root : OvalRoot :=
+      { tests := [("t1", { kind := "rpminfo_test", objRefs := ["o1"], stateRefs := [] }),
+                  ("t2", { kind := "rpminfo_test", objRefs := ["o2"], stateRefs := [] })],
+        objects := [("o1", { kind := "rpminfo_object", name := "nodejs" }), ("o2", { kind := "rpminfo_object", name := "npm" })],
+        states := [], variables := [] }
+    let t : STree := .node "OR"
+      [.node "AND" [] [⟨"m1", "Module nodejs:12 is enabled"⟩, ⟨"t1", "nodejs is earlier than 1"⟩]]
+      [⟨"t2", "npm is earlier than 2"⟩]
+    let d : OvalDef := { id := "oval:com.redhat.rhsa:def:1", title := "RHSA", desc := "", severity := "", refUrls := [], advRefs := [],
+                         bugs := [], cveHrefs := [], platforms := [], cpes := [], criteria := t.erase }
+    ((rpmDefScoped root (protoSingle (fun _ => 0) "u" "d") d t).map fun v => (v.pkgName, v.pkgModule)) =
+      [("nodejs", "nodejs:12"), ("npm", "")] ∧
+    ((rpmDefSpec root (protoSingle (fun _ => 0) "u" "d") d).map fun v => (v.pkgName, v.pkgModule)) =
+      [("nodejs", "nodejs:12"), ("npm", "nodejs:12")] := by
   decide
 
 /-- `DpkgDefsToVulns` (ubuntu): one vulnerability per (prototype, criterion that
